@@ -240,9 +240,9 @@ def check_pair_both(case):
 
 
 CLAUSES = [
-    Clause("pareto", pair_cases(), check_pareto_pair, quick=20000, thorough=200000, quick_shards=4),
-    Clause("transitive", triple_cases(), check_transitive, quick=10000, thorough=100000, quick_shards=2),
-    Clause("epsilon", eps_cases(), check_eps, quick=12000, thorough=120000, quick_shards=2),
+    Clause("pareto", pair_cases(), check_pareto_pair, quick=20000, thorough=40000, quick_shards=4),
+    Clause("transitive", triple_cases(), check_transitive, quick=10000, thorough=25000, quick_shards=2),
+    Clause("epsilon", eps_cases(), check_eps, quick=12000, thorough=25000, quick_shards=2),
 ]
 ENUMS = [
     Enum("grid-pairs", enum_pairs, check_pair_both, tiers=("quick", "thorough"), chunk=2500,
